@@ -487,6 +487,14 @@ func E2EMain(args []string) {
 		childSeq()
 		return
 	}
+	if len(args) == 4 && args[0] == "hs" {
+		childHs(args[1], args[2], args[3])
+		return
+	}
+	if len(args) == 3 && args[0] == "evt" {
+		childEvt(args[1], args[2])
+		return
+	}
 	if len(args) == 2 && args[0] == "scenario" {
 		childScenario(args[1])
 		return
